@@ -77,7 +77,7 @@ class Counter:
     def enough(self, n: int = 25) -> bool:
         """True once n distinct violations have been recorded: an exploration that has found that much need not run to its end
         (a broken tree can make the remaining search arbitrarily slow)."""
-        return len(self.violations) >= n
+        return len(self.violations) >= n or self.n.get('violations_seen', 0) >= 40 * n
 
     def merge(self, other: 'Counter'):
         for k, v in other.n.items():
